@@ -406,6 +406,8 @@ class C19(Prop):
         out = list(self.boundary_cases(rng))
         import os
         scale = float(os.environ.get("VERIF_C19_SCALE", "1"))     # development aid (mutation campaigns); 1 in normal runs
+        # time budget of the harness watchdog for timed-out / slow cases (see h_containers.c); inherited by the harness process
+        os.environ["C19_TIME_BUDGET"] = "150" if quick else "1500"
 
         heavy = []
 
